@@ -83,3 +83,6 @@ func (v *Muxer) ZZListenerCreds(domain, routeUser string) (user, pass string, ok
 	}
 	return l.username, l.password, true
 }
+
+// ZZPayload returns what was registered with the route.
+func (r *Router) ZZPayload() any { return r.payload }
